@@ -321,12 +321,45 @@ fn dump_built(ctx: &mut Ctx, b: &Built) {
     }
 }
 
+/// `size_of_val` of the heap block of a boxed (dynamically sized) tag
+fn boxed_sov(b: &Built) -> Option<usize> {
+    Some(match b {
+        Built::Cmdline(t) => size_of_val(&**t),
+        Built::Bootloader(t) => size_of_val(&**t),
+        Built::Module(t) => size_of_val(&**t),
+        Built::Mmap(t) => size_of_val(&**t),
+        Built::Framebuffer(t) => size_of_val(&**t),
+        Built::Elf(t) => size_of_val(&**t),
+        Built::Smbios(t) => size_of_val(&**t),
+        Built::Network(t) => size_of_val(&**t),
+        Built::EfiMmap(t) => size_of_val(&**t),
+        Built::Custom(t) => size_of_val(&**t),
+        _ => return None,
+    })
+}
+
+fn layout_of(ev: &[(usize, usize)], sov: usize) -> String {
+    ev.iter().rev().find(|(s, _)| *s == sov).map(|(s, a)| format!("{},{}", s, a)).unwrap_or("none".into())
+}
+
 fn run_ctor(ctx: &mut Ctx, a: &[Arg]) {
     let id = a[0].n();
     precheck(id, &a[1..]);
-    match guard(|| construct(id, &a[1..])) {
+    // the layouts the constructor asks the allocator for, and the layout the box is freed with
+    alloc_track::start();
+    let r = guard(|| construct(id, &a[1..]));
+    let (allocs, _) = alloc_track::stop();
+    match r {
         Err(()) => ctx.ln("ctor", "PANIC"),
-        Ok(b) => dump_built(ctx, &b),
+        Ok(b) => {
+            dump_built(ctx, &b);
+            if let Some(sov) = boxed_sov(&b) {
+                alloc_track::start();
+                drop(b);
+                let (_, deallocs) = alloc_track::stop();
+                ctx.ln("box", format!("alloc={} dealloc={}", layout_of(&allocs, sov), layout_of(&deallocs, sov)));
+            }
+        }
     }
 }
 
@@ -546,7 +579,10 @@ fn run_hctor(ctx: &mut Ctx, a: &[Arg]) {
     let id = a[0].n();
     let place = a[1].u();
     hprecheck(id, &a[2..]);
-    let b = match guard(|| hconstruct(id, &a[2..])) {
+    alloc_track::start();
+    let r = guard(|| hconstruct(id, &a[2..]));
+    let (allocs, _) = alloc_track::stop();
+    let b = match r {
         Err(()) => {
             ctx.ln("hctor", "PANIC");
             return;
@@ -555,12 +591,19 @@ fn run_hctor(ctx: &mut Ctx, a: &[Arg]) {
     };
     match b {
         HBuilt::End(t) => hhead(ctx, t, place, |ctx, t| dom_hdr::hk_end(ctx, t)),
-        HBuilt::InfoReq(t) => {
+        HBuilt::InfoReq(bx) => {
             // boxed: as_bytes on the box
-            let t = &*t;
-            ctx.ln("hctor", format!("VAL {}", s_himg(t)));
-            as_bytes_line(ctx, t);
-            dom_hdr::hk_information_request(ctx, &own(t), t);
+            {
+                let t = &*bx;
+                ctx.ln("hctor", format!("VAL {}", s_himg(t)));
+                as_bytes_line(ctx, t);
+                dom_hdr::hk_information_request(ctx, &own(t), t);
+            }
+            let sov = size_of_val(&*bx);
+            alloc_track::start();
+            drop(bx);
+            let (_, deallocs) = alloc_track::stop();
+            ctx.ln("box", format!("alloc={} dealloc={}", layout_of(&allocs, sov), layout_of(&deallocs, sov)));
         }
         HBuilt::Address(t) => hhead(ctx, t, place, |ctx, t| dom_hdr::hk_address(ctx, t)),
         HBuilt::EntryAddress(t) => hhead(ctx, t, place, |ctx, t| dom_hdr::hk_entry_address(ctx, t)),
